@@ -178,6 +178,27 @@ def run(ctx):
                 b_ok = adt is not None and len(adt["variants"]) == 1 and not adt["variants"][0]["fields"]
             ctx.check(b_ok, "C16.siblings", f"C16.siblings:{rty}", w.where(d["Outgoing"]), bad_msg=f"response body written as {b_out}, read as {b_in}")
         ctx.floor("request/response sibling pairs", n_pairs, 400)
+        # raw bodies: the receiving side takes the bytes of the HTTP body as they are
+        from . import panic_common as PC
+        import json as _json
+        n_raw = 0
+        VERBATIM = re.compile(r'^(\["call", "(core::convert::AsRef::as_ref|<[^"]*as core::ops::deref::Deref>::deref|<[^"]*as core::convert::AsRef<\[u8\]>>::as_ref)", \[)*'
+                              r'\["call", "http::(request::Request|response::Response)::<T>::body", \[\["arg", 1\]\]\]\]*$')
+        for group in (reqs, resps):
+            for rty, d in sorted(group.items()):
+                fn_in = d.get("Incoming")
+                if fn_in is None:
+                    continue
+                body_ = fn_in["body"]
+                defs_ = PC.roots(body_)
+                for _, c in M.calls(body_):
+                    if M.callee_name(c) == "alloc::slice::<impl [T]>::to_vec" and (c.get("fnargs") or [""])[0] == "u8":
+                        n_raw += 1
+                        e = _json.dumps(PC.expr(body_, defs_, c["args"][0]))
+                        ctx.check(VERBATIM.match(e) is not None, "C16.siblings", f"C16.siblings:raw-body:{rty}", w.where(fn_in, c["line"]),
+                                  bad_msg=f"the raw body field is not the HTTP body's bytes as they are (value comes from {e[:120]}): e.g. an empty body that is replaced by "
+                                          f"`{{}}` for the JSON reader must not reach a #[ruma_api(raw_body)] field")
+        ctx.floor("raw-body readers examined", n_raw, 4)
 
     # ---- XMatrix -----------------------------------------------------------------------------------------------------------
     ctx.rule("C16.xmatrix", "XMatrix: Display writes the parameters destination, key, origin, sig and the parser reads the same names; values are quoted through quote_ascii_string_if_required")
